@@ -296,6 +296,33 @@ func FixedCorpus() []*Unit {
 		out = append(out, &Unit{Name: "beta/types", File: fb, Label: []string{"imports a Go package with the same package name under another import path"}})
 	}
 
+	// ---- dupnames: messages sharing a short name under different parents, a
+	// user message named like a map entry, reserved field names in the later one
+	{
+		u, f := unit("dupnames", "two nested messages with the same short name; reserved field/oneof names in the second; message named like a map entry")
+		pkg := "verif.dupnames"
+		rq := f.Msg("Request")
+		ro := rq.Nested("Options")
+		ro.F("type", 1, S(String))
+		ro.F("limit", 2, S(Int32))
+		rq.F("options", 1, M(pkg+".Request.Options"))
+		rq.Map("labels", 2, String, S(String))
+		rs := f.Msg("Response")
+		so := rs.Nested("Options")
+		so.F("type", 1, S(Int64))
+		so.F("get", 2, S(Bool))
+		oo := so.Oneof("range")
+		so.O(oo, "has", 3, S(String))
+		so.O(oo, "inner", 4, M(pkg+".Request.Options"))
+		rs.F("options", 1, M(pkg+".Response.Options"))
+		rs.R("all", 2, M(pkg+".Response.Options"))
+		rs.Map("labels", 3, String, M(pkg+".Response.Options"))
+		le := f.Msg("LabelsEntry") // same short name as the synthetic map entries above
+		le.F("key", 1, S(String))
+		le.F("value", 2, S(Uint64))
+		out = append(out, u)
+	}
+
 	// ---- wkt: well-known types in every position
 	{
 		u, f := unit("wkt", "Any/Timestamp/Duration/FieldMask/Struct/Value/wrappers/Empty in singular/repeated/map/oneof")
